@@ -190,10 +190,19 @@ def run(ctx: Ctx) -> None:
             w = uu.Parameter(torch.zeros(*([2] * rank)), "weight")
             expect_error("rank4-error", lambda: cls([w], lr=0.1, **kw), {"opt": oname, "rank": rank})
         # allowed: left unscaled, tagged ones still scaled
-        for lrv in (0.25, torch.tensor(0.25)):
-            case = {"opt": oname, "allow_untagged": True, "tensor_lr": isinstance(lrv, torch.Tensor)}
+        for lrv, layout in ((0.25, "bare"), (torch.tensor(0.25), "bare"), (0.25, "one-mixed-group"), (0.25, "mixed-group-own-lr"),
+                            (torch.tensor(0.25), "one-mixed-group"), (0.25, "untagged-first")):
+            case = {"opt": oname, "allow_untagged": True, "tensor_lr": isinstance(lrv, torch.Tensor), "layout": layout}
             ctx.count(case, bucket="allow-untagged")
-            o = cls([good, plain], lr=lrv, allow_non_unit_scaling_params=True, **kw)
+            if layout == "bare":
+                arg, glr_ = [good, plain], lrv
+            elif layout == "one-mixed-group":      # tagged and untagged parameters inside one explicit group
+                arg, glr_ = [{"params": [good, plain]}], lrv
+            elif layout == "untagged-first":
+                arg, glr_ = [{"params": [plain, good]}], lrv
+            else:
+                arg, glr_ = [{"params": [good, plain], "lr": lrv}], 7.0
+            o = cls(arg, lr=glr_, allow_non_unit_scaling_params=True, **kw)
             lrs = {id(g["params"][0]): float(g["lr"]) for g in o.param_groups}
             if lrs.get(id(plain)) != 0.25:
                 ctx.violation("C10:untagged-unscaled", "allowed untagged parameter's lr was changed", case, lrs.get(id(plain)))
